@@ -149,3 +149,5 @@ func c03StackCheck(r *vfPair) string {
 	}
 	return ""
 }
+
+func c03SetPMTU(c *Config, pmtu int) {}
